@@ -416,6 +416,7 @@ func RunC03(col *core.Collector, tier, variant string, seed uint64, shard, nshar
 		n /= 3
 	}
 	runC03SetterAll(col, tier, variant, seed, shard, nshards, replayDir)
+	runC03IterAll(col, tier, variant, seed, shard, nshards, replayDir)
 	for i := shard; i < n; i += nshards {
 		r := core.NewRng(core.Derive(seed, core.StrLabel("C03conc"), core.StrLabel(variant), uint64(i)))
 		cfg := c03Cfg{Seed: r.U64(), Index: i, G: 2 + r.Intn(6), Keys: 1 + r.Intn(6), Phases: 4 + r.Intn(12), Ops: 10 + r.Intn(40),
